@@ -1424,6 +1424,11 @@ vbi_decode_caption(vbi_decoder *vbi, int line, uint8_t *buf)
 				ch->nul_ct += 2;
 			}
 
+			/* 47 CFR 15.119 (i): Only the pair in the next
+			   frame can be the repetition of a control code. */
+			if (!field2)
+				cc->last[0] = 0;
+
 			break;
 		}
 
